@@ -358,6 +358,59 @@ func ruleC18(w *World) {
 			w.check(st == lkW || st == lkR, "C18.R1", key, a.ins.Pos(), "read under the lock", fmt.Sprintf("field `%s` is read while the mutex is %s (entry state of %s: %s%s) — a check-then-act gap or data race under concurrent use", a.fld.Name(), lkName(st), fnKey(a.fn), lkName(la.entry[a.fn]), weakCallers(a.fn, lkR)))
 		}
 	}
+	// R1 (reference types): a map or slice read out of a guarded field is still the shared object: every use of the loaded
+	// value (lookup, range, len, index, passing it on) must itself be inside a critical section — a "snapshot" taken
+	// under the lock and consulted after the release races with the writers
+	for _, a := range accs {
+		if _, g := guarded[a.fld]; !g || ctor[a.fn] || a.what != "load" {
+			continue
+		}
+		ld, ok := a.ins.(*ssa.UnOp)
+		if !ok {
+			continue
+		}
+		switch ld.Type().Underlying().(type) {
+		case *types.Map, *types.Slice:
+		default:
+			continue
+		}
+		seenV := map[ssa.Value]bool{}
+		var uses func(v ssa.Value)
+		uses = func(v ssa.Value) {
+			if seenV[v] {
+				return
+			}
+			seenV[v] = true
+			for _, r := range *v.Referrers() {
+				switch x := r.(type) {
+				case *ssa.Phi:
+					uses(x)
+					continue
+				case *ssa.Store:
+					if al, ok := x.Addr.(*ssa.Alloc); ok && x.Val == v {
+						// kept in a local: the later loads of that local are the same object
+						for _, r2 := range *al.Referrers() {
+							if l2, ok := r2.(*ssa.UnOp); ok && l2.Op == token.MUL {
+								uses(l2)
+							}
+						}
+					}
+					continue
+				case *ssa.DebugRef:
+					continue
+				}
+				st, okS := la.at[r]
+				if !okS {
+					st = lkNone
+				}
+				if st == lkNone {
+					key := fmt.Sprintf("%s/use-of-loaded:%s", fnKey(a.fn), a.fld.Name())
+					w.viol("C18.R1", key, r.Pos(), fmt.Sprintf("the %s read from the guarded field `%s` is used (%s) after the lock was released: a map / slice value is a reference to the shared object, not a snapshot — this access races with the writers (concurrent map read and map write)", typeShort(ld.Type()), a.fld.Name(), strings.SplitN(r.String(), " ", 2)[0]))
+				}
+			}
+		}
+		uses(ld)
+	}
 	// R2: shape — per entry point at most one acquire site, released only by a deferred unlock,
 	// no acquire while held (also through callees), helpers never lock.
 	acquiresOf := func(fn *ssa.Function) (acq []ssa.Instruction, rel []ssa.Instruction, deferredRel int) {
@@ -739,6 +792,21 @@ func ruleC18(w *World) {
 						continue
 					}
 					cnt++
+					// only a caller that holds the lock from its acquisition to its return (deferred release, no explicit
+					// Unlock / RUnlock anywhere) keeps what it tested true until the worker runs: a test made in an earlier
+					// critical section is a stale snapshot
+					explicit := false
+					instrsFlat(cs.Parent(), func(ins ssa.Instruction) {
+						if c, ok := ins.(*ssa.Call); ok {
+							if f := c.Call.StaticCallee(); f != nil && (f.Name() == "Unlock" || f.Name() == "RUnlock") {
+								explicit = true
+							}
+						}
+					})
+					if explicit {
+						allHas, allEnough = false, false
+						continue
+					}
 					crecv := cs.Parent().Params[0].Name()
 					cmap := crecv + "." + a.fld.Name()
 					h, e := false, false
